@@ -46,7 +46,7 @@ pub fn to_vpl(e: &E) -> BoxFuture<'_, Result<String>> {
 		Ok(match e {
 			E::Leaf(tiles) => {
 				let name = fresh("m");
-				let src = MemSource::new(&name, tiles.iter().map(|(c, id)| (*c, payload(*id))).collect(), TileFormat::BIN, TileCompression::Uncompressed);
+				let src = MemSource::new(&name, tiles.iter().map(|(c, id)| (*c, payload(*id))).collect(), TileFormat::BIN, TileCompression::Uncompressed).with_yields(tiles.len() % 3); // some leaves suspend before they answer, as readers doing I/O do
 				register(&name, Box::new(src));
 				format!("from_container filename={name}")
 			}
